@@ -39,6 +39,7 @@ CRASH_PROPS = {
     "new": ["C04", "C07"], "new_uninit": ["C04", "C07"], "get": ["C04", "C07"], "set": ["C04", "C07"], "mutate": ["C04", "C07"], "move": ["C04", "C07"],
     "unpack": ["C04", "C06", "C07"], "drop": ["C06", "C07"], "convert": ["C05", "C07"], "chain": ["C05", "C07"], "vec_convert": ["C05", "C06", "C07"],
     "clone": ["C16", "C07"], "clone_from": ["C16", "C07"], "encode": ["C15", "C07"], "decode": ["C15", "C07"], "end-of-history": ["C06", "C07"],
+    "drop_panic": ["C06", "C07"],
 }
 
 
@@ -102,7 +103,8 @@ def op_name(op):
         if k == "New":
             return "new_uninit" if op[k].get("uninit") else "new"
         return {"Get": "get", "Set": "set", "Mutate": "mutate", "Move": "move", "Convert": "convert", "Chain": "chain", "Unpack": "unpack", "Drop": "drop",
-                "Clone": "clone", "CloneFrom": "clone_from", "Encode": "encode", "Decode": "decode", "VecConvert": "vec_convert"}[k]
+                "Clone": "clone", "CloneFrom": "clone_from", "Encode": "encode", "Decode": "decode", "VecConvert": "vec_convert",
+                "DecodeSweep": "decode", "DropPanic": "drop_panic"}.get(k) or ("clone_from" if op[k].get("from") else "clone")
     return str(op)
 
 
